@@ -562,3 +562,56 @@ def zero_chg_second_disk(seed):
     r, o = rec.check(); d.append("check -> %s" % o["exit"])
     a.destroy()
     return rec, d
+
+
+def audit_two_blocks(seed):
+    """C04: several silently rotten blocks in one file (first, middle, last short block): check -a, check and scrub name every one
+    of them, not only the first"""
+    a = arr.Array(arr.Conf(nd=2, np=2, copies=2), seed=seed)
+    a.write_file(0, "A", [1, 2, 3, ("s", 4)], mtime=11)
+    a.write_file(1, "B", [5, 6], mtime=12)
+    rec = recorder.Recorder(a)
+    d = ["init A(4, last short) / B(2)"]
+    r, o = rec.sync(); d.append("sync -> %s" % o["exit"])
+    for i in (0, 2, 3):
+        a.corrupt_block(0, "A", i, "flip")
+    rec.env("corrupt 0/A[1], [3], [4] silently", damage=True); d.append("corrupt 0/A blocks 1, 3, 4")
+    r, o = rec.check("-a"); d.append("check -a -> %s" % o["exit"])
+    r, o = rec.check(); d.append("check -> %s" % o["exit"])
+    r, o = rec.scrub("full"); d.append("scrub full -> %s" % o["exit"])
+    r, o = rec.check("-a"); d.append("check -a -> %s" % o["exit"])
+    r, o = rec.fix(); d.append("fix -> %s" % o["exit"])
+    r, o = rec.check(); d.append("check -> %s" % o["exit"])
+    a.destroy()
+    return rec, d
+
+
+def deleted_next_to_rotten(seed):
+    """C06: a stripe holds the block of a file deleted since the last sync and a synced block that rotted silently; with two
+    parities the sync repairs the rotten block in memory (decoding the deleted one with it) and must compute the new parity
+    WITHOUT the deleted data: afterwards every synced stripe has the parity of its data, and a lost file is still rebuilt"""
+    import os
+    a = arr.Array(arr.Conf(nd=3, np=2, copies=2), seed=seed)
+    a.write_file(0, "A", [1, 2, 3], mtime=11)
+    a.write_file(0, "K", [10], mtime=14)
+    a.write_file(1, "B", [4, 5, 6], mtime=12)
+    a.write_file(2, "C", [7, 8, 9], mtime=13)
+    rec = recorder.Recorder(a)
+    d = ["init A K / B / C"]
+    r, o = rec.sync(); d.append("sync -> %s" % o["exit"])
+    a.remove(0, "A"); rec.env("delete 0/A"); d.append("delete 0/A")
+    a.corrupt_block(1, "B", 1, "flip"); rec.env("corrupt 1/B[2] silently", damage=True); d.append("corrupt 1/B[2]")
+    a.clock += 10
+    r, o = rec.sync(); d.append("sync -> %s" % o["exit"])
+    r, o = rec.check(); d.append("check -> %s" % o["exit"])
+    r, o = rec.fix(); d.append("fix -> %s" % o["exit"])
+    a.clock += 10
+    r, o = rec.sync(); d.append("sync -> %s" % o["exit"])
+    r, o = rec.check(); d.append("check -> %s" % o["exit"])
+    if os.path.exists(a.path(2, "C")):
+        a.remove(2, "C")
+    rec.env("lose 2/C", damage=True); d.append("lose 2/C")
+    r, o = rec.fix(); d.append("fix -> %s" % o["exit"])
+    r, o = rec.check(); d.append("check -> %s" % o["exit"])
+    a.destroy()
+    return rec, d
